@@ -1,6 +1,245 @@
 /-
-  C02 — property theorems (stub; to be filled in).
+  C02 — chained conditions select exactly the rows of their logical combination.
+
+  `sqlEval env f` is what SQL computes for the text gorm wrote (Model/SqlBool.lean: Kleene logic, OR of
+  AND-runs, NOT binds to the next item, unparenthesised raw text is inlined);  `unitVal env e` is the
+  meaning of ONE condition's own rendering;  `listSpec` combines members left to right with AND / OR
+  under standard precedence, every member indivisible — the property's reading.
 -/
+import GormModel.Lemmas.Where
 namespace Gorm
+
+/-- MAIN (units are indivisible): whatever list of conditions `Where.Build` ends up with — any number of
+    members, any nesting, raw strings with any inner AND/OR structure, groups, maps, Not/Or members —
+    the WHERE text means the left-to-right AND/OR combination of the members' own meanings, provided
+    every member that gorm leaves unparenthesised next to other members has no top-level OR
+    (`whereSound`, the decidable predicate the check also evaluates on every generated chain; its
+    failure is finding F1). -/
+theorem listSpec_single (env : Nat → V3) (jc : Joiner) (e : Ex) : listSpec env jc [e] = unitVal env e := by
+  simp [listSpec, listSpecRuns]
+
+theorem soundList_memberSafe (l : List Ex) (hs : soundList true l = true) : ∀ x ∈ l, memberSafe x := by
+  induction l with
+  | nil => intro x hx; cases hx
+  | cons y ys ih =>
+    intro x hx
+    simp only [soundList, Bool.not_true, Bool.false_or, Bool.and_eq_true, Bool.not_eq_true',
+      Bool.or_eq_true] at hs
+    obtain ⟨⟨_, hne, hw⟩, hrest⟩ := hs
+    rcases List.mem_cons.mp hx with rfl | hx'
+    · refine ⟨?_, hw⟩
+      intro hnil; rw [hnil] at hne; simp at hne
+    · exact ih hrest x hx'
+
+theorem C02_where_units (env : Nat → V3) (es : List Ex) (h : whereSound es = true) :
+    sqlEval env (whereBuild es) = listSpec env .and (whereExprs es) := by
+  have hs : soundList (decide ((whereExprs es).length > 1)) (whereExprs es) = true := h
+  show sqlEval env (buildList (decide ((whereExprs es).length > 1)) true .and (whereExprs es)) = _
+  generalize whereExprs es = l at hs ⊢
+  cases l with
+  | nil => simp [sqlEval, buildList, expandFlat, expandItem, List.cons_append, List.nil_append, evalFlat, listSpec]
+  | cons e1 r1 =>
+    cases r1 with
+    | nil =>
+      have hl : decide (([e1] : List Ex).length > 1) = false := by simp
+      rw [hl, listSpec_single]
+      exact buildList_single env .and e1
+    | cons e2 r =>
+      have hl : decide ((e1 :: e2 :: r).length > 1) = true := by simp
+      rw [hl] at hs ⊢
+      exact buildList_spec env .and _ (soundList_memberSafe _ hs)
+
+/-- `Or(u)` contributes `u` itself (OR-joined): a single-member Or has the meaning of its member -/
+theorem C02_or_unit (env : Nat → V3) (e : Ex) : unitVal env (.or [e]) = unitVal env e := by
+  simp only [unitVal, Ex.build, List.length_singleton, gt_iff_lt, Nat.lt_irrefl, decide_false,
+    Bool.false_eq_true, if_false]
+  exact buildList_single env .or e
+
+/-- a single-member And (the group rewrite of a lone Or) has the meaning of its member -/
+theorem C02_and_unit (env : Nat → V3) (e : Ex) : unitVal env (.and [e]) = unitVal env e := by
+  simp only [unitVal, Ex.build, List.length_singleton, gt_iff_lt, Nat.lt_irrefl, decide_false,
+    Bool.false_eq_true, if_false]
+  exact buildList_single env .and e
+
+/-- a multi-member And/Or is ONE parenthesised operand whose content is again a unit combination -/
+theorem C02_and_group (env : Nat → V3) (e1 e2 : Ex) (r : List Ex)
+    (h : ∀ e ∈ e1 :: e2 :: r, memberSafe e) :
+    unitVal env (.and (e1 :: e2 :: r)) = listSpec env .and (e1 :: e2 :: r) := by
+  have hlen : (e1 :: e2 :: r).length > 1 := by simp
+  have hd : decide ((e1 :: e2 :: r).length > 1) = true := by simp
+  simp only [unitVal, Ex.build, if_pos hlen, hd, sqlEval, expandFlat_paren, evalFlat, evalCore, applyNegs_zero]
+  have := buildList_spec env .and (e1 :: e2 :: r) h
+  simp only [sqlEval] at this
+  rw [this]; simp [evalRuns]
+
+theorem C02_or_group (env : Nat → V3) (e1 e2 : Ex) (r : List Ex)
+    (h : ∀ e ∈ e1 :: e2 :: r, memberSafe e) :
+    unitVal env (.or (e1 :: e2 :: r)) = listSpec env .or (e1 :: e2 :: r) := by
+  have hlen : (e1 :: e2 :: r).length > 1 := by simp
+  have hd : decide ((e1 :: e2 :: r).length > 1) = true := by simp
+  simp only [unitVal, Ex.build, if_pos hlen, hd, sqlEval, expandFlat_paren, evalFlat, evalCore, applyNegs_zero]
+  have := buildList_spec env .or (e1 :: e2 :: r) h
+  simp only [sqlEval] at this
+  rw [this]; simp [evalRuns]
+
+/-! ### Not -/
+
+theorem AtomKind.pol_negate (k : AtomKind) : k.negate.pol = !k.pol := by cases k <;> rfl
+
+def atomVal (env : Nat → V3) (a : Atom) : V3 := if a.kind.pol then env a.id else (env a.id).not
+
+theorem unitVal_atom (env : Nat → V3) (a : Atom) : unitVal env (.atom a) = atomVal env a := by
+  simp [unitVal, sqlEval, Ex.build, expandFlat, expandItem, List.cons_append, List.nil_append, Atom.core, evalFlat, evalCore, applyNegs_zero, evalRuns, atomVal]
+
+theorem atomVal_negate (env : Nat → V3) (a : Atom) : atomVal env a.negate = (atomVal env a).not := by
+  unfold atomVal
+  show (if a.kind.negate.pol = true then env a.id else (env a.id).not) = _
+  rw [AtomKind.pol_negate]
+  cases a.kind.pol <;> simp
+
+/-- `Not` of one generated comparison is its negation (`NegationBuild`: Eq↔Neq, Gt→Lte, …) -/
+theorem C02_not_atom (env : Nat → V3) (a : Atom) :
+    unitVal env (.not [.atom a]) = (unitVal env (.atom a)).not := by
+  rw [unitVal_atom, ← atomVal_negate, ← unitVal_atom]
+  simp [unitVal, Ex.build, Ex.negatable, notListA]
+
+/-- AND of the negations of the member comparisons -/
+def allFalse (env : Nat → V3) (cur : V3) : List Atom → V3
+  | [] => cur
+  | a :: r => allFalse env (cur.and (atomVal env a).not) r
+
+theorem notListA_atoms (env : Nat → V3) (as : List Atom) (acc cur : V3) :
+    evalRuns env acc cur (expandFlat (notListA (as.map Ex.atom))) = acc.or (allFalse env cur as) := by
+  induction as generalizing cur with
+  | nil => simp [notListA, expandFlat, expandItem, List.cons_append, List.nil_append, evalRuns, allFalse]
+  | cons a r ih =>
+    simp only [List.map_cons, notListA, expandFlat, expandItem, List.cons_append, List.nil_append, evalRuns, evalCore, Atom.core, applyNegs_zero, allFalse]
+    rw [ih]
+    have : (if a.negate.kind.pol = true then env a.negate.id else (env a.negate.id).not) = (atomVal env a).not := by
+      rw [← atomVal_negate]; rfl
+    rw [this]
+
+theorem evalFlat_notListA_atoms (env : Nat → V3) (a : Atom) (as : List Atom) :
+    evalFlat env (expandFlat (notListA ((a :: as).map Ex.atom))) = allFalse env .t (a :: as) := by
+  simp only [List.map_cons, notListA, expandFlat, expandItem, List.cons_append, List.nil_append, evalFlat, evalCore, Atom.core, applyNegs_zero]
+  rw [notListA_atoms]
+  have e1 : (if a.negate.kind.pol = true then env a.negate.id else (env a.negate.id).not) = (atomVal env a).not := by
+    rw [← atomVal_negate]; rfl
+  rw [e1]
+  simp [allFalse]
+
+/-- `Not` of a multi-field map / struct (members are generated comparisons) requires EVERY member to be
+    false — the documented `name <> ? AND age <> ?` reading, for any number of fields -/
+theorem C02_not_fields (env : Nat → V3) (a1 a2 : Atom) (r : List Atom) :
+    unitVal env (.not ((a1 :: a2 :: r).map Ex.atom)) = allFalse env .t (a1 :: a2 :: r) := by
+  have hany : ((a1 :: a2 :: r).map Ex.atom).any Ex.negatable = true := by simp [Ex.negatable]
+  have hlen : ((a1 :: a2 :: r).map Ex.atom).length > 1 := by simp
+  simp only [unitVal, Ex.build, hany, if_pos hlen, if_true, sqlEval, expandFlat_paren, evalFlat, evalCore, applyNegs_zero]
+  rw [evalFlat_notListA_atoms]
+  simp [evalRuns]
+
+/-- `Not` of one raw / And / Or / Not member negates that member AS A WHOLE, provided gorm parenthesises
+    it (`notWrap`) or its rendering is a single item -/
+theorem C02_not_single (env : Nat → V3) (e : Ex) (hn : e.negatable = false)
+    (h : notWrap e = true ∨ singleItem (expandFlat e.build) = true) (hne : e.build ≠ []) :
+    unitVal env (.not [e]) = (unitVal env e).not := by
+  have hany : ([e] : List Ex).any Ex.negatable = false := by simp [hn]
+  simp only [unitVal, Ex.build, hany, Bool.false_eq_true, if_false, List.length_singleton, gt_iff_lt,
+    Nat.lt_irrefl, decide_false, notListB, if_true, List.append_nil, sqlEval]
+  by_cases hw : notWrap e = true
+  · simp [hw, addNeg, expandFlat, expandItem, List.cons_append, List.nil_append, expandItem, evalFlat, evalCore, applyNegs, evalRuns]
+  · have hs : singleItem (expandFlat e.build) = true := by
+      rcases h with h1 | h1
+      · exact absurd h1 hw
+      · exact h1
+    simp only [hw, Bool.false_eq_true, if_false]
+    -- the rendering is exactly one item; NOT lands on it
+    rw [expandFlat_addNeg, expandFlat_setJoin]
+    have hne' := expandFlat_ne_nil _ hne
+    cases hx : expandFlat e.build with
+    | nil => exact absurd hx hne'
+    | cons y ys =>
+      obtain ⟨a1, b1, c1⟩ := y
+      rw [hx] at hs
+      have : ys = [] := by
+        cases ys with
+        | nil => rfl
+        | cons z zs => simp [singleItem] at hs
+      subst this
+      simp [setJoin, addNeg, evalFlat, evalRuns, applyNegs_succ]
+
+/-! ### empty forms add no condition; nil ⇒ IS NULL; slice ⇒ IN -/
+
+theorem C02_empty_forms (es : List Ex) (op : ChainOp) :
+    chainStep es op .empty = es ∧ chainStep es op (.fields []) = es ∧ chainStep es op (.group []) = es := by
+  refine ⟨?_, ?_, ?_⟩ <;> simp [chainStep, Form.cond, mkAnd]
+
+theorem C02_nil_is_null (col : String) (id : Nat) :
+    (Atom.text { col := col, kind := .eq, val := .nil, id := id }) = col ++ " IS NULL" := rfl
+
+theorem C02_slice_is_in (col : String) (id : Nat) :
+    (Atom.text { col := col, kind := .inK, val := .list 3, id := id }) = col ++ " IN (?,?,?)" := by
+  simp [Atom.text, qmarks]
+
+/-- a chain whose first condition is not an `Or` and is not a lone And-group is rendered in call order -/
+theorem C02_no_swap (e : Ex) (r : List Ex) (h1 : e.isSingleOr = false) (h2 : r ≠ [] ∨ ∀ inner, e ≠ .and inner) :
+    whereExprs (e :: r) = e :: r := by
+  have hu : unwrapSingleAnd (e :: r) = e :: r := by
+    cases r with
+    | nil =>
+      cases e with
+      | and inner => rcases h2 with h | h; exact absurd rfl h; exact absurd rfl (h inner)
+      | raw a b c d => rfl
+      | atom a => rfl
+      | or a => rfl
+      | not a => rfl
+    | cons x xs => cases e <;> rfl
+  simp [whereExprs, hu, swapFirst, firstNonSingleOr, h1]
+
+/-! ### findings, kernel-checked -/
+
+def envOf (l : List V3) : Nat → V3 := fun i => l.getD i .u
+
+/-- F1: any raw string `a OR b` whose keywords escape gorm's detector, followed by another condition `c`:
+    the text reads `a OR (b AND c)`, the units say `(a OR b) AND c`; they differ on a row where a holds and c fails -/
+theorem C02_detector_counterexample (text : List Char) (out : String) (h : detector text = false) :
+    let raw := Ex.raw text false out [(.and, 0, .atom 0 true "a"), (.or, 0, .atom 1 true "b")]
+    let c := Ex.atom { col := "c", kind := .eq, val := .scalar, id := 2 }
+    whereSound [raw, c] = false ∧
+    sqlEval (envOf [.t, .f, .f]) (whereBuild [raw, c]) = .t ∧
+    listSpec (envOf [.t, .f, .f]) .and (whereExprs [raw, c]) = .f := by
+  intro raw c
+  have hw : wrapTest raw = false := by simp [raw, wrapTest, h]
+  refine ⟨?_, ?_, ?_⟩
+  · simp [whereSound, whereExprs, unwrapSingleAnd, swapFirst, firstNonSingleOr, raw, c, Ex.isSingleOr, soundList, hw, wrapTest, h,
+      Ex.build, expandFlat, expandItem, List.cons_append, List.nil_append, setFirst, noTopOr, Ex.sound]
+  · simp [whereBuild, whereExprs, unwrapSingleAnd, swapFirst, firstNonSingleOr, raw, c, Ex.isSingleOr, buildList, hw, wrapTest, h, Ex.build,
+      setJoin, sqlEval, expandFlat, expandItem, List.cons_append, List.nil_append, setFirst, Atom.core, evalFlat, evalRuns, evalCore, applyNegs, envOf,
+      AtomKind.pol, V3.and, V3.or]
+  · simp [whereExprs, unwrapSingleAnd, swapFirst, firstNonSingleOr, raw, c, Ex.isSingleOr, listSpec, listSpecRuns, memberJoin, unitVal,
+      sqlEval, Ex.build, expandFlat, expandItem, List.cons_append, List.nil_append, setFirst, Atom.core, evalFlat, evalRuns, evalCore, applyNegs, envOf,
+      AtomKind.pol, V3.and, V3.or]
+
+/-- the tab-delimited `or` of the listed witness does escape the detector, the plain one does not -/
+example : detector ['1', ' ', 'o', 'r', '\t', 'b'] = false ∧ detector ['1', ' ', 'o', 'r', ' ', 'b'] = true := by decide
+
+/-- F8: `Not` over a list mixing a generated comparison with an Or member is negated member-wise although
+    the list is an OR unit: for the unit `a AND b OR c` on a row where a holds, b fails and c fails the unit is
+    FALSE, so its negation as a whole is TRUE — but gorm's member-wise rendering `(a' AND NOT b AND NOT c)` is FALSE -/
+theorem C02_not_mixed_counterexample :
+    let a := Ex.atom { col := "a", kind := .eq, val := .scalar, id := 0 }
+    let b := Ex.raw ['b'] false "b" [(.and, 0, .atom 1 true "b")]
+    let c := Ex.or [Ex.raw ['c'] false "c" [(.and, 0, .atom 2 true "c")]]
+    let env := envOf [.t, .f, .f]
+    notMixedList [a, b, c] = true ∧ unitVal env (.and [a, b, c]) = .f ∧ unitVal env (.not [a, b, c]) = .f := by
+  decide
+
+/-- non-vacuity of `C02_where_units`: a chain with a map, an OR-joined raw string containing OR, and a
+    Not — three members, nested structure — satisfies `whereSound` -/
+example :
+    whereSound (chainExprs [
+      (.where_, .fields [{ col := "a", kind := .eq, val := .scalar, id := 0 }, { col := "b", kind := .eq, val := .nil, id := 1 }]),
+      (.or_, .raw ['x', ' ', 'O', 'R', ' ', 'y'] false "x OR y" [(.and, 0, .atom 2 true "x"), (.or, 0, .atom 3 true "y")]),
+      (.not_, .col { col := "c", kind := .gt, val := .scalar, id := 4 })]) = true := by decide
 
 end Gorm
